@@ -3,7 +3,7 @@ losslessly.  Rules: R-C06-cover, R-C06-echo, R-C06-escapes.
 """
 import ast
 
-from .. import rx, leximpl
+from .. import rx, leximpl, norm
 from ..cfg import cfg_of
 from ..consteval import UNKNOWN
 from ..core import AnalysisError
@@ -44,189 +44,377 @@ LX = 'pico8.lua.lexer'
 
 # ------------------------------------------------------------------ cover --
 
+def _appends_to(p, state):
+    """argument expressions of <self.state>.append(x) events of a path"""
+    out = []
+    for e in p.events:
+        if e[0] == 'call' and isinstance(e[1], ast.Call) and \
+                isinstance(e[1].func, ast.Attribute) and \
+                e[1].func.attr == 'append' and \
+                ast.unparse(e[1].func.value) == 'self.' + state and \
+                len(e[1].args) == 1:
+            out.append(e[1].args[0])
+    return out
+
+
+def _token_calls(p):
+    """constructor calls handed to self._tokens.append on a path"""
+    out = []
+    for e in p.events:
+        if e[0] == 'call' and isinstance(e[1], ast.Call) and \
+                isinstance(e[1].func, ast.Attribute) and \
+                e[1].func.attr == 'append' and \
+                ast.unparse(e[1].func.value) == 'self._tokens' and \
+                e[1].args and isinstance(e[1].args[0], ast.Call):
+            out.append(e[1].args[0])
+    return out
+
+
+def _flat_add(e):
+    parts = []
+
+    def flat(x):
+        if isinstance(x, ast.BinOp) and isinstance(x.op, ast.Add):
+            flat(x.left)
+            flat(x.right)
+        else:
+            parts.append(x)
+    flat(e)
+    return parts
+
+
 def rule_cover(ctx, res, src):
+    from ..absint.symbody import SymBody
     f = src.f
     where = f.qual
     s = src.s_name
+    u = ast.unparse
     table = [l for l in src.links if l['kind'] == 'table'][0]
     loop = table['loop']
-    # token data and consumed length are the same expression
-    data_e = None
-    len_e = None
-    for n in walk_own(loop):
-        if isinstance(n, ast.Call) and isinstance(n.func, ast.Name) and \
-                n.func.id == 'tok_class' and n.args:
-            data_e = n.args[0]
-        if isinstance(n, ast.Assign) and isinstance(n.targets[0], ast.Name) \
-                and n.targets[0].id == 'i' and \
-                isinstance(n.value, ast.Call) and \
-                isinstance(n.value.func, ast.Name) and \
-                n.value.func.id == 'len':
-            len_e = n.value.args[0]
-    ok = data_e is not None and len_e is not None and \
-        ast.dump(data_e) == ast.dump(len_e) and \
-        ast.unparse(data_e).endswith('.group(0)')
+    lf = table['loop_func']
+    # ---- table rows: the token stores exactly the text that is consumed ----
+    pairs = []                 # (stored expr text, consumed expr text)
+    lsym = SymBody(ctx, lf)
+    for q in lsym.run(loop.body, {}):
+        for c in ([e[1].args[0] for e in q.events
+                   if e[0] == 'call' and isinstance(e[1], ast.Call) and
+                   isinstance(e[1].func, ast.Attribute) and
+                   e[1].func.attr == 'append' and e[1].args and
+                   isinstance(e[1].args[0], ast.Call)]):
+            if c.args and 'i' in q.env:
+                pairs.append((u(c.args[0]), u(q.env['i'])))
+        if q.end == 'return' and isinstance(q.ret, ast.Tuple) and \
+                len(q.ret.elts) == 2 and \
+                'group(0)' in u(q.ret.elts[1]):
+            # helper form: returns (class, matched text); the caller stores
+            # element 1 and consumes its length
+            for p in table['paths']:
+                for c in _token_calls(p):
+                    if c.args and p.ret is not None:
+                        d = u(c.args[0])
+                        if d.endswith('[1]'):
+                            pairs.append((u(q.ret.elts[1]) if u(p.ret) ==
+                                          'len({})'.format(d) else d,
+                                          'len({})'.format(u(q.ret.elts[1]))
+                                          if u(p.ret) == 'len({})'.format(d)
+                                          else u(p.ret)))
+    ok = bool(pairs)
+    detail = ''
+    for (d, c) in pairs:
+        good = d.endswith('.group(0)') and (
+            c == 'len({})'.format(d) or c == d[:-len('.group(0)')] + '.end()')
+        if not good:
+            ok = False
+            detail = 'token stores {} but {} bytes are consumed'.format(d, c)
     res.check(ok, 'R-C06-cover', where, 'table rows: stored == consumed',
-              'token data m.group(0), consumed len(m.group(0))',
-              'token stores {} but {} bytes are consumed'.format(
-                  unparse(data_e) if data_e is not None else '?',
-                  unparse(len_e) if len_e is not None else '?'),
+              'token data m.group(0), consumed its length',
+              detail or 'token construction in the table loop not found',
               f.module.loc(loop))
     # the match is anchored at the start of the remaining text
-    anchored = any(isinstance(n, ast.Call) and isinstance(n.func, ast.Attribute)
-                   and n.func.attr == 'match' and n.args and
-                   isinstance(n.args[0], ast.Name) and n.args[0].id == s
-                   for n in walk_own(loop))
+    subj = lf.params()[-1] if lf is not f else s
+    anchored = False
+    for n in walk_own(loop):
+        ru = norm.regex_use(ctx, lf, n)
+        if ru is not None and ru.method == 'match' and ru.pos is None and \
+                isinstance(ru.subject, ast.Name) and ru.subject.id == subj:
+            anchored = True
+        if isinstance(n, ast.Call) and isinstance(n.func, ast.Attribute) and \
+                n.func.attr == 'match' and len(n.args) == 1 and \
+                isinstance(n.args[0], ast.Name) and n.args[0].id == subj:
+            anchored = True
     res.check(anchored, 'R-C06-cover', where,
               'rows are matched at the start of the remaining text', '',
               'rows are searched, not matched: skipped text disappears',
               f.module.loc(loop))
-    # block comment
+    # ---- multi-line constructs -----------------------------------------------
     for op in src.openers:
         cont = op.get('cont')
         if cont is None:
             continue
         state = cont['state']
-        body_src = [ast.unparse(x) for x in cont['body']]
+        loc = f.module.loc(f.node)
         if op['kind'] == 'prefix' and len(op['prefixes']) == 1 and \
                 len(op['prefixes'][0]) > 1:
             pre = op['prefixes'][0]
             # opener stores its own text
-            init_ok = any(
-                isinstance(n, ast.Assign) and
-                isinstance(n.targets[0], ast.Attribute) and
-                n.targets[0].attr == state and
-                isinstance(n.value, ast.List) and len(n.value.elts) == 1 and
-                const_str(n.value.elts[0]) == pre
-                for st in op['body'] for n in walk_own(st))
-            appends = [n for st in cont['body'] for n in walk_own(st)
-                       if isinstance(n, ast.Call) and
-                       isinstance(n.func, ast.Attribute) and
-                       n.func.attr == 'append' and
-                       state in ast.unparse(n.func.value)]
-            forms = sorted(ast.unparse(a.args[0]) for a in appends)
-            ok = init_ok and forms == [s, s + '[:i]']
-            joined = any('join(self.' + state + ')' in x.replace(' ', '')
-                         for x in body_src) or any(
-                "b''.join(self." + state + ")" in ast.unparse(n)
-                for st in cont['body'] for n in walk_own(st))
-            res.check(ok and joined, 'R-C06-cover', where,
+            init_ok = all(any(
+                e[0] == 'set' and e[1] == 'self.' + state and
+                isinstance(e[2], ast.List) and len(e[2].elts) == 1 and
+                const_str(e[2].elts[0]) == pre for e in p.events)
+                for p in op['paths'])
+            found, notfound, _nd = src.found_split(cont)
+            forms = []
+            ok = init_ok and bool(found) and bool(notfound)
+            for p in found:
+                a = [u(x) for x in _appends_to(p, state)]
+                forms.append(a)
+                toks = _token_calls(p)
+                if a != ['{}[:{}]'.format(s, u(p.ret))] or len(toks) != 1 \
+                        or not toks[0].args or u(toks[0].args[0]) != \
+                        "b''.join(self.{})".format(state):
+                    ok = False
+            for p in notfound:
+                a = [u(x) for x in _appends_to(p, state)]
+                forms.append(a)
+                if a != [s] or u(p.ret) != 'len({})'.format(s):
+                    ok = False
+            res.check(ok, 'R-C06-cover', where,
                       'block comment: every consumed byte is stored',
                       'opener text + chunks + text up to and including the '
                       'terminator', 'block comment storage changed: opener '
-                      'stored={} appended={}'.format(init_ok, forms),
-                      f.module.loc(cont['node']))
+                      'stored={} appended={}'.format(init_ok, forms), loc)
         elif op['kind'] == 'regex':
-            appends = [n for st in cont['body'] for n in walk_own(st)
-                       if isinstance(n, ast.Call) and
-                       isinstance(n.func, ast.Attribute) and
-                       n.func.attr == 'append' and
-                       state in ast.unparse(n.func.value)]
-            forms = sorted(ast.unparse(a.args[0]) for a in appends)
-            consumed = any(isinstance(n, ast.Assign) and
-                           isinstance(n.targets[0], ast.Name) and
-                           n.targets[0].id == 'i' and
-                           ast.unparse(n.value) == 'm.end()'
-                           for st in cont['body'] for n in walk_own(st))
-            ok = forms == [s, s + '[:m.start()]'] and consumed
+            found, notfound, nd = src.found_split(cont)
+            ok = bool(found) and bool(notfound)
+            forms = []
+            for p in found:
+                a = [u(x) for x in _appends_to(p, state)]
+                forms.append(a)
+                r = u(p.ret)
+                good = False
+                if len(a) == 1 and a[0].startswith(s + '[:') and \
+                        a[0].endswith(']'):
+                    upto = a[0][len(s) + 2:-1]
+                    if upto.endswith('.start()') and \
+                            r == upto[:-len('.start()')] + '.end()':
+                        good = True
+                    elif nd is not None and upto in (
+                            '{}.find({})'.format(s, u(nd)),
+                            '{}.index({})'.format(s, u(nd))) and \
+                            r == '{} + len({})'.format(upto, u(nd)):
+                        good = True
+                if not good:
+                    ok = False
+            for p in notfound:
+                a = [u(x) for x in _appends_to(p, state)]
+                forms.append(a)
+                if a != [s] or u(p.ret) != 'len({})'.format(s):
+                    ok = False
             res.check(ok, 'R-C06-cover', where,
                       'long string: text before the closer stored, closer '
-                      'consumed', '', 'long string storage changed: {} '
-                      'consumed-to-m.end()={}'.format(forms, consumed),
-                      f.module.loc(cont['node']))
-            # level recorded at the opener and used by the re-encoder
-            lvl = any(isinstance(n, ast.Assign) and
-                      isinstance(n.targets[0], ast.Attribute) and
-                      n.targets[0].attr.endswith('_delim') and
-                      ast.unparse(n.value) == 'm.group(1)'
-                      for st in op['body'] for n in walk_own(st))
-            passes = any(k.arg == 'multiline_quote'
-                         for st in cont['body'] for n in walk_own(st)
-                         if isinstance(n, ast.Call)
-                         for k in n.keywords)
+                      'consumed', '', 'long string storage changed: '
+                      '{}'.format(forms), loc)
+            # level recorded at the opener and handed to the token
+            lvl = all(any(e[0] == 'set' and e[1].endswith('_delim') and
+                          u(e[2]).endswith('.group(1)') for e in p.events)
+                      for p in op['paths'])
+            passes = bool(found) and all(
+                any(k.arg == 'multiline_quote' and
+                    u(k.value).endswith('_delim')
+                    for c in _token_calls(p) for k in c.keywords)
+                for p in found)
             res.check(lvl and passes, 'R-C06-cover', where,
                       'long string level recorded and handed to the token',
-                      '', 'bracket level is not recorded / passed on',
-                      f.module.loc(op['node']))
+                      '', 'bracket level is not recorded / passed on', loc)
     # TokString.code regenerates the long brackets
     code = ctx.model.func(LX + ':TokString.code')
-    rets = [r for r in walk_own(code.node) if isinstance(r, ast.Return)]
     long_ok = False
-    for r in rets:
-        parts = []
-
-        def flat(x):
-            if isinstance(x, ast.BinOp) and isinstance(x.op, ast.Add):
-                flat(x.left)
-                flat(x.right)
-            else:
-                parts.append(x)
-        flat(r.value)
-        txt = [const_str(p) if isinstance(const_str(p), bytes)
-               else ast.unparse(p) for p in parts]
+    seen = []
+    for p in SymBody(ctx, code).run(code.node.body):
+        if p.end != 'return' or p.ret is None:
+            continue
+        if not any(val and u(t) == 'self._multiline_quote is not None'
+                   or (not val and u(t) == 'self._multiline_quote is None')
+                   for (t, val) in p.conds):
+            continue
+        txt = [const_str(x) if isinstance(const_str(x), bytes) else u(x)
+               for x in _flat_add(p.ret)]
+        seen.append(txt)
         if txt == [b'[', 'self._multiline_quote', b'[', 'self._data', b']',
                    'self._multiline_quote', b']']:
             long_ok = True
     res.check(long_ok, 'R-C06-cover', code.qual,
               'long string re-spelled as [level[ data ]level]', '',
-              'long bracket re-spelling changed', code.loc)
-    # driver loop
+              'long bracket re-spelling changed: {}'.format(seen[:1]),
+              code.loc)
+    # driver loop: the line shrinks by exactly what a step reports
     pl = ctx.model.func(LX + ':Lexer._process_line')
-    src_pl = ast.unparse(pl.node)
-    ok = 'line = line[i:]' in src_pl and 'if i == 0' in src_pl
+    ok, detail = _driver_ok(ctx, pl)
     res.check(ok, 'R-C06-cover', pl.qual,
               'driver consumes exactly what a step reports', '',
-              'driver loop no longer slices by the consumed length', pl.loc)
+              'driver loop no longer slices by the consumed length: ' +
+              detail, pl.loc)
     res.require_min('R-C06-cover', 6)
+
+
+def _driver_ok(ctx, pl):
+    """while-loop of _process_line: remaining := remaining[k:] with k the
+    value _process_token returned for that very remaining text; stop at 0."""
+    from ..absint.symbody import SymBody
+    u = ast.unparse
+    loops = [n for n in walk_own(pl.node) if isinstance(n, ast.While)]
+    if len(loops) != 1:
+        return False, 'expected one while loop'
+    lp = loops[0]
+    sym = SymBody(ctx, pl)
+    pre = sym.run(pl.node.body[:pl.node.body.index(lp)]
+                  if lp in pl.node.body else [])
+    if len(pre) != 1:
+        return False, 'prologue branches'
+    env0 = pre[0].env
+    paths = sym.run(lp.body, {})
+
+    def is_step(e, var):
+        return isinstance(e, ast.Call) and \
+            u(e.func) == 'self._process_token' and len(e.args) == 1 and \
+            u(e.args[0]) == var
+    # form A: the step is taken inside the body, before the slice
+    for line in [a.arg for a in pl.node.args.args[1:]] + list(env0):
+        cont = [p for p in paths if p.end == 'fall']
+        brk = [p for p in paths if p.end in ('break', 'return')]
+        if cont and all(
+                isinstance(p.env.get(line), ast.Subscript) and
+                u(p.env[line].value) == line and
+                isinstance(p.env[line].slice, ast.Slice) and
+                p.env[line].slice.upper is None and
+                is_step(p.env[line].slice.lower, line) for p in cont) and \
+                brk and all(any(
+                    u(t) in ('self._process_token({}) == 0'.format(line),
+                             '0 == self._process_token({})'.format(line))
+                    and v for (t, v) in p.conds) for p in brk) and \
+                u(lp.test) == 'True':
+            return True, ''
+    # form B: invariant k == step(remaining) at the loop head
+    t = lp.test
+    if isinstance(t, ast.Compare) and len(t.ops) == 1 and \
+            isinstance(t.ops[0], ast.NotEq) and \
+            isinstance(t.left, ast.Name) and \
+            isinstance(t.comparators[0], ast.Constant) and \
+            t.comparators[0].value == 0:
+        k = t.left.id
+        init = env0.get(k)
+        for line in list(env0) + [a.arg for a in pl.node.args.args[1:]]:
+            src_line = u(env0[line]) if line in env0 else line
+            if init is None or not (
+                    isinstance(init, ast.Call) and
+                    u(init.func) == 'self._process_token' and
+                    len(init.args) == 1 and u(init.args[0]) == src_line):
+                continue
+            good = bool(paths) and all(p.end == 'fall' for p in paths)
+            for p in paths:
+                nl = p.env.get(line)
+                nk = p.env.get(k)
+                if not (isinstance(nl, ast.Subscript) and
+                        u(nl) == '{}[{}:]'.format(line, k) and
+                        isinstance(nk, ast.Call) and
+                        u(nk) == 'self._process_token({})'.format(u(nl))):
+                    good = False
+            if good:
+                return True, ''
+    return False, 'loop shape not recognised'
 
 
 # ------------------------------------------------------------------- echo --
 
 def rule_echo(ctx, res):
+    from ..absint.symbody import SymBody
     model = ctx.model
+    u = ast.unparse
     q = 'pico8.lua.lua:LuaEchoWriter.to_lines'
     f = model.func(q)
-    loops = [n for n in f.node.body if isinstance(n, ast.For)]
-    ok = False
-    detail = 'loop over self._tokens not found'
-    if len(loops) == 1 and ast.unparse(loops[0].iter) == 'self._tokens' and \
-            isinstance(loops[0].target, ast.Name):
-        lp = loops[0]
+    sym = SymBody(ctx, f)
+    whole = sym.run(f.node.body)
+    loops = [e for p in whole for e in p.events if e[0] == 'loop']
+    loops = list({id(e[1]): e for e in loops}.values())
+    problems = []
+    detail = ''
+    if len(loops) != 1 or not isinstance(loops[0][1], ast.For) or \
+            u(sym.S(loops[0][1].iter, loops[0][2])) != 'self._tokens' or \
+            not isinstance(loops[0][1].target, ast.Name):
+        problems.append('one loop over self._tokens expected')
+    else:
+        lp, env0 = loops[0][1], loops[0][2]
         tok = lp.target.id
-        appends = [n for n in walk_own(lp) if isinstance(n, ast.Call) and
-                   isinstance(n.func, ast.Attribute) and
-                   n.func.attr == 'append']
-        first = lp.body[0] if lp.body else None
-        app_ok = len(appends) == 1 and isinstance(first, ast.Expr) and \
-            first.value is appends[0] and \
-            ast.unparse(appends[0].args[0]) == tok + '.code'
-        buf = ast.unparse(appends[0].func.value) if appends else '?'
-        flush = [n for n in lp.body if isinstance(n, ast.If)]
-        fl_ok = False
-        if len(flush) == 1:
-            t = ast.unparse(flush[0].test)
-            ys = [y for s in flush[0].body for y in walk_own(s)
-                  if isinstance(y, ast.Yield)]
-            clears = any('clear' in ast.unparse(s) or
-                         ast.unparse(s).replace(' ', '') == buf + '=[]'
-                         for s in flush[0].body)
-            fl_ok = 'TokNewline' in t and len(ys) == 1 and \
-                ast.unparse(ys[0].value).replace(' ', '') == \
-                "b''.join({})".format(buf) and clears and \
-                not flush[0].orelse
-        # trailing flush after the loop
-        after = f.node.body[f.node.body.index(lp) + 1:]
-        tail_ok = len(after) == 1 and isinstance(after[0], ast.If) and \
-            ast.unparse(after[0].test) == buf and any(
-                isinstance(y, ast.Yield) for s in after[0].body
-                for y in walk_own(s))
-        no_filter = not any(isinstance(n, ast.Continue) for n in walk_own(lp))
-        ok = app_ok and fl_ok and tail_ok and no_filter
-        detail = ('append-code-first={} flush-at-newline={} trailing-flush={} '
-                  'no-skip={}'.format(app_ok, fl_ok, tail_ok, no_filter))
-    res.check(ok, 'R-C06-echo', q,
+        code = tok + '.code'
+        buf = None
+        for pth in sym.run(lp.body, {}):
+            ev = [e for e in pth.events]
+            isnl = None
+            for (t, val) in pth.conds:
+                while isinstance(t, ast.UnaryOp) and \
+                        isinstance(t.op, ast.Not):
+                    t, val = t.operand, not val
+                tt = u(t)
+                if tt.startswith('isinstance({}, '.format(tok)) and \
+                        tt.endswith('TokNewline)'):
+                    isnl = val
+                elif tt.startswith(tok + '.matches(') and 'TokNewline' in tt:
+                    isnl = val
+                else:
+                    problems.append('a token is treated specially under '
+                                    '`{}`'.format(tt[:50]))
+            if pth.end not in ('fall', 'continue'):
+                problems.append('the token loop is left early')
+            if not ev or ev[0][0] != 'call' or not (
+                    isinstance(ev[0][1], ast.Call) and
+                    isinstance(ev[0][1].func, ast.Attribute) and
+                    ev[0][1].func.attr == 'append' and
+                    isinstance(ev[0][1].func.value, ast.Name) and
+                    len(ev[0][1].args) == 1 and
+                    u(ev[0][1].args[0]) == code):
+                problems.append('the token\'s code is not appended first')
+                continue
+            b_ = ev[0][1].func.value.id
+            buf = buf or b_
+            if b_ != buf:
+                problems.append('two buffers')
+            rest = ev[1:]
+            def is_reset(e):
+                return (e[0] == 'call' and u(e[1]) == buf + '.clear()') or (
+                    e[0] == 'bind' and e[1] == buf and
+                    isinstance(e[2], ast.List) and not e[2].elts)
+            cleared = any(is_reset(e) for e in rest)
+            yields = [e for e in rest if e[0] == 'yield']
+            others = [e for e in rest if e[0] != 'yield' and
+                      not is_reset(e)]
+            if cleared and yields and rest.index(yields[0]) > min(
+                    i for i, e in enumerate(rest) if is_reset(e)):
+                problems.append('the buffer is emptied before it is yielded')
+            if isnl is True:
+                if len(yields) != 1 or u(yields[0][1]) != \
+                        "b''.join({})".format(buf) or not cleared or others:
+                    problems.append('at a line end the buffer is not '
+                                    'yielded once and emptied')
+            else:
+                if yields or cleared or others:
+                    problems.append('text is emitted / dropped in the middle '
+                                    'of a line')
+        # after the loop: a non-empty buffer is flushed
+        tail_ok = False
+        for p in whole:
+            ys = [e for e in p.events if e[0] == 'yield']
+            for (t, val) in p.conds:
+                nm = u(t)
+                if val and buf and nm.split('$')[0] == buf and ys and \
+                        u(ys[-1][1]) == "b''.join({})".format(nm):
+                    tail_ok = True
+        if not tail_ok:
+            problems.append('the last (unterminated) line is not flushed')
+        detail = 'buffer {}'.format(buf)
+    res.check(not problems, 'R-C06-echo', q,
               'every token\'s code once, in order; flush per line and at the '
-              'end', detail, 'echo writer changed: ' + detail, f.loc)
+              'end', detail, 'echo writer changed: ' +
+              '; '.join(sorted(set(problems))[:3]), f.loc)
     # default writer selection
     tl = model.func('pico8.lua.lua:Lua.to_lines')
     sel = False
@@ -322,70 +510,211 @@ class DecoderSpec:
         return bytes(out), None
 
 
+def _lin(e, idx, matches):
+    """linear view of an index expression over the symbols i (loop index) and
+    mlen(M) (length of a regex match M): -> {sym: coef, 1: const} or None.
+    M.end() = start offset of M + mlen(M); M.start() = its start offset;
+    len(M.group(0)) = mlen(M)."""
+    u = ast.unparse
+
+    def add(a, b, k=1):
+        out = dict(a)
+        for s_, c in b.items():
+            out[s_] = out.get(s_, 0) + k * c
+        return {s_: c for s_, c in out.items() if c != 0 or s_ == 1}
+    if isinstance(e, ast.Constant) and isinstance(e.value, int):
+        return {1: e.value}
+    if isinstance(e, ast.Name) and e.id == idx:
+        return {idx: 1, 1: 0}
+    if isinstance(e, ast.BinOp) and isinstance(e.op, (ast.Add, ast.Sub)):
+        a, b = _lin(e.left, idx, matches), _lin(e.right, idx, matches)
+        if a is None or b is None:
+            return None
+        return add(a, b, 1 if isinstance(e.op, ast.Add) else -1)
+    if isinstance(e, ast.Call) and isinstance(e.func, ast.Name) and \
+            e.func.id == 'len' and len(e.args) == 1:
+        a = e.args[0]
+        if isinstance(a, ast.Call) and isinstance(a.func, ast.Attribute) and \
+                a.func.attr == 'group' and u(a.func.value) in matches and \
+                len(a.args) == 1 and isinstance(a.args[0], ast.Constant) and \
+                a.args[0].value == 0:
+            return {('mlen', u(a.func.value)): 1, 1: 0}
+        if isinstance(a, ast.Constant) and isinstance(a.value, bytes):
+            return {1: len(a.value)}
+    if isinstance(e, ast.Call) and isinstance(e.func, ast.Attribute) and \
+            e.func.attr in ('end', 'start') and not e.args and \
+            u(e.func.value) in matches:
+        m = u(e.func.value)
+        off = matches[m]['offset']        # linear or None (relative)
+        base = off if off is not None else {1: 0}
+        if e.func.attr == 'start':
+            return dict(base)
+        return add(base, {('mlen', m): 1, 1: 0})
+    return None
+
+
 def extract_decoder(ctx, src):
-    ev = ctx.consts
+    """Escape decoding of the in-string loop, from its per-character paths:
+    ordered numeric handlers (regex, base, group) and the table branch."""
+    u = ast.unparse
+    s = src.s_name
     cont = [l for l in src.links if l['kind'] == 'state' and
             l['state'] == '_in_string']
     if not cont:
         raise AnalysisError('in-string branch not found')
     cont = cont[0]
-    esc_if = None
-    for st in cont['body']:
-        for n in walk_own(st):
-            if isinstance(n, ast.If) and ast.unparse(n.test).replace(
-                    ' ', '') == "c==b'\\\\'":
-                esc_if = n
-    if esc_if is None:
-        raise AnalysisError('backslash branch not found')
-    # pattern matches: name = re.match(PAT, s[i+1:])
-    pats = {}
-    for st in esc_if.body:
-        if isinstance(st, ast.Assign) and isinstance(st.value, ast.Call) and \
-                src.model.ext_name(src.module, st.value.func) == 're.match':
-            p = ev.eval_expr(src.module, st.value.args[0])
-            arg = ast.unparse(st.value.args[1]).replace(' ', '')
-            if not isinstance(p, bytes) or arg != src.s_name + '[i+1:]':
-                raise AnalysisError('escape pattern outside the model')
-            pats[st.targets[0].id] = p
+    loops = [x for x in src.loop_paths(
+        cont, which=lambda n: isinstance(n, ast.While))]
+    if len(loops) != 1:
+        raise AnalysisError('in-string character loop not found')
+    lp, paths, env0 = loops[0]
+    t = lp.test
+    if not (isinstance(t, ast.Compare) and len(t.ops) == 1 and
+            isinstance(t.ops[0], ast.Lt) and isinstance(t.left, ast.Name)):
+        raise AnalysisError('in-string loop test is not i < len(s)')
+    idx = t.left.id
+    bound = u(src.sym.S(t.comparators[0], env0))
+    if bound != 'len({})'.format(s):
+        raise AnalysisError('in-string loop bound is ' + bound)
+    cur = '{0}[{1}:{1} + 1]'.format(s, idx)
     handlers = []
-    uses_table = False
-    node = [s for s in esc_if.body if isinstance(s, ast.If)]
-    if len(node) != 1:
-        raise AnalysisError('escape dispatch outside the model')
-    cur = node[0]
-    while True:
-        t = cur.test
-        if isinstance(t, ast.Name) and t.id in pats:
-            body = ' '.join(ast.unparse(x) for x in cur.body).replace(' ', '')
-            nm = t.id
-            if 'c=bytes([int({}.group(0))])'.format(nm) in body and \
-                    'i+=len({}.group(0))'.format(nm) in body:
-                handlers.append(('dec', rx.build(pats[nm]), 10, 0))
-            elif 'c=bytes([int({}.group(1),16)])'.format(nm) in body and \
-                    'i+=len({}.group(0))'.format(nm) in body:
-                handlers.append(('hex', rx.build(pats[nm]), 16, 1))
-            else:
-                raise AnalysisError('numeric escape body outside the model')
-            if len(cur.orelse) == 1 and isinstance(cur.orelse[0], ast.If):
-                cur = cur.orelse[0]
+    seen_pats = []
+    table_ok = plain_ok = unknown_ok = False
+    esc_node = lp
+    for q in paths:
+        if q.end == 'raise':
+            continue
+        conds = [(u(c), v) for (c, v) in q.conds]
+        is_close = any(v and c.startswith(cur + ' == self.') or
+                       (v and c.endswith(' == ' + cur) and 'self.' in c)
+                       for (c, v) in conds)
+        if is_close:
+            continue
+        bs = [v for (c, v) in conds
+              if c in (cur + " == b'\\\\'", "b'\\\\' == " + cur)]
+        app = _appends_to(q, '_in_string')
+        if len(app) != 1 or idx not in q.env:
+            raise AnalysisError('in-string step stores {} values'.format(
+                len(app)))
+        app = app[0]
+        # regex matches tried on this path
+        matches = {}
+        order = []
+        for (c_ast, v) in q.conds:
+            ru = None
+            tt = c_ast
+            neg = False
+            while isinstance(tt, ast.UnaryOp) and isinstance(tt.op, ast.Not):
+                tt, neg = tt.operand, not neg
+            ru = norm.regex_use(ctx, src.f, tt)
+            if ru is None or ru.method != 'match':
                 continue
-            tail = cur.orelse
-            break
-        raise AnalysisError('escape dispatch test outside the model: ' +
-                            ast.unparse(t))
-    tail_src = ' '.join(ast.unparse(x) for x in tail).replace(' ', '')
-    if 'next_c=' + src.s_name + '[i+1:i+2]' in tail_src and \
-            'ifnext_cin_STRING_ESCAPES' in tail_src and \
-            'c=_STRING_ESCAPES[next_c]' in tail_src and 'i+=1' in tail_src:
-        uses_table = True
-    else:
-        raise AnalysisError('table escape branch outside the model')
-    # after the escape handling the byte is appended and i advances by one
-    loop_src = ' '.join(ast.unparse(x) for x in cont['body']).replace(' ', '')
-    if 'self._in_string.append(c)' not in loop_src:
-        raise AnalysisError('decoded byte is not appended')
+            # start offset of the match within s
+            if ru.pos is not None and u(ru.subject) == s:
+                off = _lin(ru.pos, idx, {})
+                rel = off
+            elif isinstance(ru.subject, ast.Subscript) and \
+                    u(ru.subject.value) == s and \
+                    isinstance(ru.subject.slice, ast.Slice) and \
+                    ru.subject.slice.upper is None:
+                off = _lin(ru.subject.slice.lower, idx, {})
+                rel = None
+            else:
+                raise AnalysisError('escape regex subject outside the '
+                                    'model: ' + u(ru.subject))
+            if off != {idx: 1, 1: 1}:
+                raise AnalysisError('escape regex is not matched right '
+                                    'after the backslash')
+            matches[u(tt)] = {'pattern': ru.pattern, 'offset': rel,
+                              'taken': (v != neg)}
+            order.append(u(tt))
+        adv = _lin(q.env[idx], idx, matches)
+        if adv is None:
+            raise AnalysisError('in-string index update outside the model: '
+                                + u(q.env[idx]))
+        step = dict(adv)
+        step[idx] = step.get(idx, 0) - 1
+        step = {k: v for k, v in step.items() if v != 0}
+        if not bs or not bs[-1]:
+            # ordinary character: stored as it is, one byte consumed
+            if u(app) == cur and step == {1: 1}:
+                plain_ok = True
+                continue
+            raise AnalysisError('plain character step: stores {} advances '
+                                '{}'.format(u(app), step))
+        taken = [m for m in order if matches[m]['taken']]
+        if taken:
+            m = taken[0]
+            if order.index(m) != len([x for x in order
+                                      if not matches[x]['taken']]):
+                raise AnalysisError('numeric escape order outside the model')
+            # bytes([int(M.group(g)[, base])])
+            a = app
+            ok = isinstance(a, ast.Call) and u(a.func) == 'bytes' and \
+                len(a.args) == 1 and isinstance(a.args[0], ast.List) and \
+                len(a.args[0].elts) == 1
+            base, grp = None, None
+            if ok:
+                ic = a.args[0].elts[0]
+                ok = isinstance(ic, ast.Call) and u(ic.func) == 'int' and \
+                    ic.args and isinstance(ic.args[0], ast.Call) and \
+                    isinstance(ic.args[0].func, ast.Attribute) and \
+                    ic.args[0].func.attr == 'group' and \
+                    u(ic.args[0].func.value) == m and \
+                    len(ic.args[0].args) == 1 and \
+                    isinstance(ic.args[0].args[0], ast.Constant)
+                if ok:
+                    grp = ic.args[0].args[0].value
+                    base = ic.args[1].value if len(ic.args) > 1 and \
+                        isinstance(ic.args[1], ast.Constant) else 10
+            if not ok:
+                raise AnalysisError('numeric escape value outside the '
+                                    'model: ' + u(app))
+            if step != {('mlen', m): 1, 1: 1}:
+                raise AnalysisError('numeric escape consumes {} instead of '
+                                    'backslash + match'.format(step))
+            pat = matches[m]['pattern']
+            if pat not in seen_pats:
+                seen_pats.append(pat)
+                handlers.append(('dec' if base == 10 else 'hex',
+                                 rx.build(pat), base, grp))
+            continue
+        # no numeric escape matched: table escape or unknown escape
+        nxt = '{0}[{1} + 1:{1} + 2]'.format(s, idx)
+        tbl = [v for (c, v) in conds if c in (
+            nxt + ' in _STRING_ESCAPES',
+            '_STRING_ESCAPES.get({}) is not None'.format(nxt),
+            '_STRING_ESCAPES.get({}) is None'.format(nxt))]
+        tbl_pos = None
+        for (c, v) in conds:
+            if c == nxt + ' in _STRING_ESCAPES' or \
+                    c == '_STRING_ESCAPES.get({}) is not None'.format(nxt):
+                tbl_pos = v
+            elif c == '_STRING_ESCAPES.get({}) is None'.format(nxt):
+                tbl_pos = not v
+        if tbl_pos is True:
+            if u(app) in ('_STRING_ESCAPES[{}]'.format(nxt),
+                          '_STRING_ESCAPES.get({})'.format(nxt)) and \
+                    step == {1: 2}:
+                table_ok = True
+                continue
+            raise AnalysisError('table escape: stores {} advances {}'.format(
+                u(app), step))
+        if tbl_pos is False:
+            if u(app) in (cur, "b'\\\\'") and step == {1: 1}:
+                unknown_ok = True
+                continue
+            raise AnalysisError('unknown escape: stores {} advances '
+                                '{}'.format(u(app), step))
+        raise AnalysisError('escape path outside the model: ' +
+                            ' and '.join(c for (c, _v) in conds)[:120])
+    if not (plain_ok and table_ok and unknown_ok and handlers):
+        raise AnalysisError(
+            'escape decoding incomplete: plain={} table={} unknown={} '
+            'numeric handlers={}'.format(plain_ok, table_ok, unknown_ok,
+                                         len(handlers)))
     table = {k: v for k, v in src.escapes.items() if len(k) == 1}
-    return DecoderSpec(handlers, table), esc_if
+    return DecoderSpec(handlers, table), esc_node
 
 
 def rule_escapes(ctx, res, src):
